@@ -68,9 +68,9 @@ class Cx:
         self.obs: List[Obligation] = []
         self.floors: List[dict] = []
         self.notes: List[str] = []
-        seed_problems = self.ti.validate_seeds()
-        if seed_problems:
-            raise AnalysisError('; '.join(seed_problems))
+        # rows of the container seed table that no longer describe the tree; a property may turn one into a
+        # violation (and remove it here); whatever is left makes the run inconclusive (driver)
+        self.seed_problems: List[str] = self.ti.validate_seeds()
 
     @property
     def effects(self) -> Effects:
